@@ -9,7 +9,7 @@ static const char* const ep_name[EP_NB] = { "compress2", "compressCCtx", "compre
 
 typedef struct {
     int ep; const uint8_t* src; size_t n; vparams P; int level; ZSTD_CDict* cdict; const uint8_t* dict; size_t dictLen;
-    ZSTD_Sequence* seqs; size_t nbSeqs;
+    ZSTD_Sequence* seqs; size_t nbSeqs; size_t extraBlocks;
 } cjob;
 
 /* one compression into a buffer of exactly `cap` bytes; returns zstd result (for the streaming ep: total produced, or error) */
@@ -67,8 +67,14 @@ static void run_case(long idx)
         J.nbSeqs = ZSTD_generateSequences(g, J.seqs, ZSTD_sequenceBound(n), src.p, n);
         ZSTD_freeCCtx(g);
         if (ZSTD_isError(J.nbSeqs)) { v_stat("skipped", 1); goto done; }
+        if (vr_chance(&r, 1, 2) && J.nbSeqs) {   /* caller-chosen partition: extra delimiters cut tiny blocks (0..9 literal bytes) and odd small ones out of literal runs */
+            size_t const maxExtra = 1 + vr_u(&r, 40); ZSTD_Sequence* q = (ZSTD_Sequence*)malloc((J.nbSeqs + maxExtra + 2) * sizeof(ZSTD_Sequence)); size_t nq = 0; uint32_t const rate = 1 + vr_u(&r, 30);
+            for (size_t i = 0; i < J.nbSeqs; i++) { ZSTD_Sequence sq = J.seqs[i];
+                if (J.extraBlocks < maxExtra && vr_u(&r, rate) == 0) { uint32_t k = vr_chance(&r, 3, 4) ? vr_u(&r, 10) : vr_u(&r, 300); if (k > sq.litLength) k = sq.litLength; q[nq].offset = 0; q[nq].matchLength = 0; q[nq].rep = 0; q[nq].litLength = k; nq++; sq.litLength -= k; J.extraBlocks++; }
+                q[nq++] = sq; }
+            free(J.seqs); J.seqs = q; J.nbSeqs = nq; v_stat("sequence_jobs_with_caller_partition", 1); }
     }
-    size_t const bound = ZSTD_compressBound(n);
+    size_t const bound = ZSTD_compressBound(n) + J.extraBlocks * 4 + (J.extraBlocks ? 64 : 0);      /* every extra block of a caller-chosen partition costs a block header: not covered by compressBound */
     v_stat("inputs", 1);
     /* reference run at bound */
     size_t refSize; int incomplete;
